@@ -29,19 +29,30 @@ End INST.
 
 Definition set_ok (s : params * hashkind) : bool :=
   let P := fst s in
-  Nat.eqb (p_h P) (p_d P * p_hp P) && Nat.leb 1 (p_d P) && Nat.leb (p_n P) 32
+  (Nat.eqb (p_h P) (p_d P * p_hp P) && Nat.leb 1 (p_d P) && Nat.leb (p_n P) 32)
   (* what the Go code additionally relies on: h - hp <= 64 (uint64 tree index), hp < 32,
-     digest long enough for the split, w - 1 chain steps *)
-  && Nat.leb (p_h P - p_hp P) 64 && Nat.ltb (p_hp P) 32 && Nat.leb 1 (p_lgw P)
-  && Nat.eqb (p_m P) (md_len P + tree_len P + leaf_len P).
+     1 <= lgw <= 25 and len2*lgw <= 32 (uint32 accumulators of base2b / checksum),
+     a <= 25 (FORS indices through base2b), digest exactly as long as the split needs *)
+  && (Nat.leb (p_h P - p_hp P) 64 && Nat.ltb (p_hp P) 32 && Nat.leb 1 (p_lgw P) && Nat.leb (p_lgw P) 25
+      && Nat.leb (p_len2 P * p_lgw P) 32 && Nat.leb (p_a P) 25
+      && Nat.eqb (p_m P) (md_len P + tree_len P + leaf_len P)).
 
 Lemma all_sets_ok : forallb set_ok all_sets = true.
 Proof. vm_compute. reflexivity. Qed.
 
 Lemma set_ok_wf : forall s, set_ok s = true -> params_wf (fst s) /\ p_n (fst s) <= 32.
 Proof.
-  intros s H. unfold set_ok in H. repeat (apply andb_prop in H; destruct H as [H ?]).
-  apply Nat.eqb_eq in H. apply Nat.leb_le in H4, H5. unfold params_wf. auto.
+  intros s H. unfold set_ok in H. apply andb_prop in H. destruct H as [H _].
+  apply andb_prop in H. destruct H as [H Hn]. apply andb_prop in H. destruct H as [Hh Hd].
+  apply Nat.eqb_eq in Hh. apply Nat.leb_le in Hd, Hn. unfold params_wf. auto.
+Qed.
+
+Lemma set_ok_checksum : forall s, set_ok s = true ->
+  1 <= p_lgw (fst s) <= 25 /\ p_len2 (fst s) * p_lgw (fst s) <= 32.
+Proof.
+  intros s H. unfold set_ok in H. apply andb_prop in H. destruct H as [_ H].
+  repeat (apply andb_prop in H; destruct H as [H ?]).
+  apply Nat.leb_le in H4, H3, H2. lia.
 Qed.
 
 Lemma all_sets_wf : forall s, In s all_sets -> params_wf (fst s) /\ p_n (fst s) <= 32.
